@@ -61,7 +61,8 @@ func c28Talk(addr string) (stage string, err error) {
 	defer cl.Close()
 	cred := nfsx.AuthSys(1, "client", 0, 0, nil)
 	rt := func(xid, prog, vers, proc uint32, args []byte, frags ...int) (*nfsx.Reply, error) {
-		rec, err := cl.RoundTrip(nfsx.Call(xid, prog, vers, proc, cred, nfsx.AuthNone(), args), 3*time.Second, frags...)
+		// every call reaches the socket in two pieces; the cut falls inside the first record marker for some of them
+		rec, err := cl.RoundTripSplit(nfsx.Call(xid, prog, vers, proc, cred, nfsx.AuthNone(), args), 3*time.Second, int(xid%5)+1, frags...)
 		if err != nil {
 			return nil, err
 		}
